@@ -71,6 +71,8 @@ func PanicsHandler() rux.HandlerFunc {
 		defer func() {
 			if err := recover(); err != nil {
 				c.Resp.WriteHeader(500)
+				// stop the chain: the Next() loop of the caller will continue otherwise
+				c.Abort()
 			}
 		}()
 
